@@ -251,8 +251,8 @@ Proof.
   unfold run_fun. cbn [length f_params gen__compare_frame_rankings Nat.eqb].
   change (f_body _) with cfr_body. rewrite cfr_split. unfold exec_block. rewrite run_block_app.
   remember (run_block execx (cfr_loop1 :: cfr_mid ++ cfr_loop2 :: cfr_post)) as K eqn:HK.
-  unfold cfr_pre. cbn. unfold builtin. cbn. fold idx. rewrite get_item_fancy, (fancy_ok ref idx Hidx). cbn.
-  rewrite get_item_fancy, (fancy_ok est idx) by (rewrite <- HL; exact Hidx). cbn.
+  unfold cfr_pre. cbn. unfold builtin. cbn. fold idx. rewrite (fancy_ok ref idx Hidx). cbn.
+  rewrite (fancy_ok est idx) by (rewrite <- HL; exact Hidx). cbn.
   Show.
 Abort.
 End Cfr.
